@@ -80,6 +80,14 @@ pub open spec fn src_ok(inv: bool, st: ReaderState, rem: Seq<u8>) -> bool {
 }
 
 impl<R: BufRead> IoReader<R> {
+//@extract de::IoReader::has_nil_attr | src/de/mod.rs :: impl<'i, R: BufRead> XmlRead<'i> for IoReader<R> :: fn has_nil_attr | serves=C07,C14 features=serialize
+    fn has_nil_attr(&self, start: &BytesStart) -> (r: bool)
+        // C07: looking for `xsi:nil` in a tag terminates and never panics, whatever the tag contains; C14: ONE function text for both sources
+        requires start.name_len <= start.buf@.len(), self.reader.ns_resolver.wf(),
+    {
+        start.attributes().has_nil(&self.reader)
+    }
+//@end
 //@extract de::IoReader::read_to_end | src/de/mod.rs :: impl<'i, R: BufRead> XmlRead<'i> for IoReader<R> :: fn read_to_end | serves=C14 features=serialize
     fn read_to_end(&mut self, name: QName) -> (r: Result<(), DeError>)
         requires src_ok(old(self).reader.inv(), old(self).reader.reader.state, old(self).reader.reader.reader.remaining()),
@@ -166,6 +174,14 @@ impl<R: BufRead> IoReader<R> {
 }
 //@end
 impl<'de> SliceReader<'de> {
+//@extract de::SliceReader::has_nil_attr | src/de/mod.rs :: impl<'de> XmlRead<'de> for SliceReader<'de> :: fn has_nil_attr | serves=C07,C14 features=serialize
+    fn has_nil_attr(&self, start: &BytesStart) -> (r: bool)
+        // C07: looking for `xsi:nil` in a tag terminates and never panics, whatever the tag contains; C14: ONE function text for both sources
+        requires start.name_len <= start.buf@.len(), self.reader.ns_resolver.wf(),
+    {
+        start.attributes().has_nil(&self.reader)
+    }
+//@end
 //@extract de::SliceReader::read_to_end | src/de/mod.rs :: impl<'de> XmlRead<'de> for SliceReader<'de> :: fn read_to_end | serves=C14 features=serialize
     fn read_to_end(&mut self, name: QName) -> (r: Result<(), DeError>)
         requires src_ok(old(self).reader.inv(), old(self).reader.reader.state, old(self).reader.reader.reader.remaining()),
